@@ -607,7 +607,38 @@ func c15Aliasing(c *core.Ctx, pkg string) {
 					}
 				}
 			}
-			c.Decide(bad == "", "R15.7", "extended-name-owns-storage:"+key, c.Pos(a), "no second append to the same base while the result is in use, and the result does not leave the goroutine", bad+": two names share one backing array and the earlier one is overwritten (wrong segment requested / wrong name announced)")
+			// (iii) the base is a name the caller passed in: the append writes behind the
+			// caller's slice, into spare capacity that can belong to a longer name of the
+			// caller (the versioned name this one was cut from); the caller's name changes
+			// under it. Unless every caller passes a name it owns.
+			if bad == "" {
+				if par, isPar := core.Strip(base).(*ssa.Parameter); isPar {
+					ownedByCallers := false
+					if callers := p.Callers(fn); len(callers) > 0 && !fn.Object().Exported() {
+						ownedByCallers = true
+						idx := -1
+						for k, q := range fn.Params {
+							if q == par {
+								idx = k
+							}
+						}
+						for _, ci := range callers {
+							args := ci.Common().Args
+							if ci.Common().IsInvoke() || idx < 0 || idx >= len(args) || !owned(args[idx]) {
+								ownedByCallers = false
+							}
+						}
+					}
+					if !ownedByCallers {
+						how := escapesGoroutine(a, 2)
+						if how == "" {
+							how = "used on"
+						}
+						bad = fmt.Sprintf("the name built at %s by appending to the parameter %s (a slice of the caller) is %s", c.Pos(a), par.Name(), how)
+					}
+				}
+			}
+			c.Decide(bad == "", "R15.7", "extended-name-owns-storage:"+key, c.Pos(a), "no second append to the same base while the result is in use, the base is not the caller's slice, and the result does not leave the goroutine", bad+": two names share one backing array and one of them is overwritten (wrong segment requested / wrong name announced / the caller's own name changed under it)")
 		}
 	}
 	c.Extra["name_appends_on_unowned_base"] = nApp
@@ -812,6 +843,226 @@ func c15Scan(c *core.Ctx) {
 func c15Round4b(c *core.Ctx, pkg string) {
 	fieldWiseCopies(c, pkg)
 	c15RemoveRoot(c)
+	c15SelfSend(c, pkg)
+	c15BoltScan(c)
+}
+
+// c15BoltScan — R15.12 "the newest version, whether from the in-memory or the on-disk
+// store": the prefix scan of BoltStore.Get ends only where the cursor ends or leaves the
+// prefix — every exit of the cursor loop is decided by the key the cursor returned. A scan
+// that gives up after a fixed number of keys answers with an older version once enough
+// versions exist (keys are ordered by name, the newest version is the last of them).
+func c15BoltScan(c *core.Ctx) {
+	p := c.P
+	var get *ssa.Function
+	for _, fn := range p.FuncsIn(core.ModPath + "/std/object") {
+		root := core.RootOf(fn)
+		if root != nil && core.BaseName(root) == "Get" && strings.Contains(core.FuncName(root), "BoltStore") {
+			found := false
+			core.Instrs(fn, func(in ssa.Instruction) {
+				if ci, ok := in.(*ssa.Call); ok {
+					if cal := ci.Call.StaticCallee(); cal != nil && cal.Name() == "Next" && core.InLoop(ci.Block()) {
+						found = true
+					}
+				}
+			})
+			if found {
+				get = fn
+			}
+		}
+	}
+	if get == nil {
+		c.Und("R15.12", "anchor:BoltStore.Get cursor loop", "-", "no cursor loop found in BoltStore.Get")
+		return
+	}
+	c.Funcs[core.FuncName(get)] = true
+	var next *ssa.Call
+	core.Instrs(get, func(in ssa.Instruction) {
+		if ci, ok := in.(*ssa.Call); ok {
+			if cal := ci.Call.StaticCallee(); cal != nil && cal.Name() == "Next" && core.InLoop(ci.Block()) {
+				next = ci
+			}
+		}
+	})
+	h := loopHeader(next.Block())
+	if h == nil {
+		c.Und("R15.12", "anchor:BoltStore.Get cursor loop", c.Pos(next), "the cursor's Next call is not inside a loop")
+		return
+	}
+	inLoop := func(b *ssa.BasicBlock) bool {
+		if b == h {
+			return true
+		}
+		for _, x := range enclosingLoops(b) {
+			if x == h {
+				return true
+			}
+		}
+		return false
+	}
+	// does the value depend on what the cursor returned?
+	var dependsOnCursor func(v ssa.Value, seen map[ssa.Value]bool) bool
+	dependsOnCursor = func(v ssa.Value, seen map[ssa.Value]bool) bool {
+		if v == nil || seen[v] {
+			return false
+		}
+		seen[v] = true
+		if ci, ok := v.(*ssa.Call); ok {
+			if cal := ci.Call.StaticCallee(); cal != nil && (cal.Name() == "Next" || cal.Name() == "Seek") && cal.Pkg != nil && strings.Contains(cal.Pkg.Pkg.Path(), "bbolt") {
+				return true
+			}
+		}
+		in, ok := v.(ssa.Instruction)
+		if !ok {
+			return false
+		}
+		for _, o := range in.Operands(nil) {
+			if o != nil && *o != nil && dependsOnCursor(*o, seen) {
+				return true
+			}
+		}
+		return false
+	}
+	nExit, bad := 0, ""
+	for _, b := range get.Blocks {
+		if !inLoop(b) || len(b.Instrs) == 0 {
+			continue
+		}
+		for _, s2 := range b.Succs {
+			if inLoop(s2) {
+				continue
+			}
+			// an exit edge of the loop; returns with an error are not "giving up the scan"
+			iff, isIf := b.Instrs[len(b.Instrs)-1].(*ssa.If)
+			if !isIf {
+				continue
+			}
+			nExit++
+			if !dependsOnCursor(iff.Cond, map[ssa.Value]bool{}) {
+				bad = c.Pos(iff)
+			}
+		}
+	}
+	c.Decide(nExit > 0 && bad == "", "R15.12", "bolt-prefix-scan-ends-only-with-the-prefix", p.Pos(get.Pos()), fmt.Sprintf("%d exits of the cursor loop, each decided by the key the cursor returned", nExit), "the prefix scan of BoltStore.Get can end on a condition that does not depend on the cursor ("+bad+", e.g. an iteration budget): with more keys under the prefix than that, the newest version is never examined and the on-disk store answers with an older one than the in-memory store")
+}
+
+// c15SelfSend — R15.11: the client goroutine (the function whose loop selects over the
+// client's channels) never makes a blocking send on one of the channels that only it
+// receives from, in anything it calls synchronously: once that channel is full the
+// goroutine waits for itself, and no pending Consume ever completes.
+func c15SelfSend(c *core.Ctx, pkg string) {
+	p := c.P
+	nLoops := 0
+	for _, fn := range p.FuncsIn(pkg) {
+		if strings.HasSuffix(p.File(fn.Pos()), "_test.go") {
+			continue
+		}
+		// channels received in a select inside a loop of fn
+		own := map[string]bool{}
+		core.Instrs(fn, func(in ssa.Instruction) {
+			sel, ok := in.(*ssa.Select)
+			if !ok || !core.InLoop(sel.Block()) {
+				return
+			}
+			for _, st := range sel.States {
+				if st.Dir == types.RecvOnly {
+					if _, path := core.FieldPath(st.Chan); len(path) > 0 {
+						own[path[len(path)-1]] = true
+					}
+				}
+			}
+		})
+		if len(own) < 2 {
+			continue
+		}
+		nLoops++
+		c.Funcs[core.FuncName(fn)] = true
+		// received anywhere else? then the loop is not the only receiver
+		for _, g := range p.FuncsIn(pkg) {
+			if g == fn {
+				continue
+			}
+			core.Instrs(g, func(in ssa.Instruction) {
+				var ch ssa.Value
+				switch x := in.(type) {
+				case *ssa.UnOp:
+					if x.Op == token.ARROW {
+						ch = x.X
+					}
+				case *ssa.Select:
+					for _, st := range x.States {
+						if st.Dir == types.RecvOnly {
+							if _, path := core.FieldPath(st.Chan); len(path) > 0 {
+								delete(own, path[len(path)-1])
+							}
+						}
+					}
+				}
+				if ch != nil {
+					if _, path := core.FieldPath(ch); len(path) > 0 {
+						delete(own, path[len(path)-1])
+					}
+				}
+			})
+		}
+		// synchronous callees (static calls only; closures run where they are called)
+		reach := map[*ssa.Function]bool{fn: true}
+		work := []*ssa.Function{fn}
+		via := map[*ssa.Function]*ssa.Function{}
+		for len(work) > 0 {
+			g := work[len(work)-1]
+			work = work[:len(work)-1]
+			core.Instrs(g, func(in ssa.Instruction) {
+				ci, ok := in.(*ssa.Call)
+				if !ok {
+					return
+				}
+				cal := ci.Call.StaticCallee()
+				if cal == nil || cal.Blocks == nil || cal.Pkg == nil || !strings.HasPrefix(cal.Pkg.Pkg.Path(), core.ModPath) || reach[cal] {
+					return
+				}
+				if _, isClosure := ci.Call.Value.(*ssa.MakeClosure); isClosure {
+					reach[cal] = true
+					via[cal] = g
+					work = append(work, cal)
+					return
+				}
+				reach[cal] = true
+				via[cal] = g
+				work = append(work, cal)
+			})
+		}
+		bad := ""
+		for g := range reach {
+			core.Instrs(g, func(in ssa.Instruction) {
+				var ch ssa.Value
+				switch x := in.(type) {
+				case *ssa.Send:
+					ch = x.Chan
+				case *ssa.Select:
+					if x.Blocking {
+						for _, st := range x.States {
+							if st.Dir == types.SendOnly {
+								ch = st.Chan
+							}
+						}
+					}
+				}
+				if ch == nil {
+					return
+				}
+				if _, path := core.FieldPath(ch); len(path) > 0 && own[path[len(path)-1]] {
+					chain := core.FuncName(g)
+					for h := via[g]; h != nil; h = via[h] {
+						chain = core.FuncName(h) + " → " + chain
+					}
+					bad = fmt.Sprintf("%s sends on %s at %s (%s)", core.FuncName(g), path[len(path)-1], c.Pos(in), chain)
+				}
+			})
+		}
+		c.Decide(bad == "", "R15.11", "loop-goroutine-does-not-wait-for-itself:"+core.FuncName(fn), p.Pos(fn.Pos()), fmt.Sprintf("%d channels only this loop receives from; no blocking send on them in %d functions it calls synchronously", len(own), len(reach)), "the goroutine that is the only receiver of a channel makes a blocking send on it: "+bad+" — once the channel is full (1024 Interests queued by callers) it waits for itself for ever, and no pending Consume completes or fails")
+	}
+	c.Floor("R15.11", "select loops over the client's channels", nLoops, 1)
 }
 
 func fieldWiseCopies(c *core.Ctx, pkg string) {
